@@ -530,24 +530,51 @@ def callSeq (o : Opts) (c : Callable α) : List (Env × List α × Option (Kw α
   | [] => c
   | (env, args, kw) :: rest => callSeq o (call env o c args kw).2 rest
 
-/-- The negative cache: remembered (cache key of the entity, key of the options value) pairs.  The key of a bound
-method is its `__func__` (`UnboundInstanceCache`), so callables may share entries. -/
-abbrev CacheState := List (Nat × Nat)
+/-- Identities of a callable (object identities as opaque numbers): the object itself, its bound target
+(`__func__` of a bound method, the object itself otherwise) and its code object, if it has one.  Distinct closures of one
+factory, or the wrappers produced by one `functools.wraps` decorator, have distinct `obj`/`func` but the same `code`. -/
+structure Ident where
+  obj : Nat
+  func : Nat
+  code : Option Nat
+  deriving DecidableEq, Repr
 
-/-- set the in-cache facts of every level from the cache state (`keys`: cache key per level, outermost first) -/
-def Callable.load (st : CacheState) (ok : Nat) : Callable α → List Nat → Callable α
-  | .base d s b, k :: _ => .base { d with inCache := d.inCache || st.contains (k, ok) } s b
+/-- What a remembered verdict is filed under. -/
+inductive CacheKey where
+  | entity (n : Nat)
+  | code (n : Nat)
+  deriving DecidableEq, Repr
+
+/-- `_ALLOWLIST_CACHE._get_key(entity)` for the cache class extracted from `conversion.py`:
+`UnboundInstanceCache` keys a bound method by its `__func__` and anything else by itself;
+`CodeObjectCache` keys whatever has a `__code__` by that code object. -/
+def cacheKey (i : Ident) : CacheKey :=
+  match allowlistCacheKind with
+  | .unboundInstance => .entity (if cacheKeyDropsReceiver then i.func else i.obj)
+  | .codeObject =>
+    match i.code with
+    | some c => .code c
+    | none => .entity i.obj
+  | .unresolved => .entity i.obj
+
+/-- The negative cache: remembered (cache key of the entity, key of the options value) pairs. -/
+abbrev CacheState := List (CacheKey × Nat)
+
+/-- set the in-cache facts of every level from the cache state (`ids`: identities per level, outermost first) -/
+def Callable.load (st : CacheState) (ok : Nat) : Callable α → List Ident → Callable α
+  | .base d s b, i :: _ => .base { d with inCache := d.inCache || st.contains (cacheKey i, ok) } s b
   | .base d s b, [] => .base d s b
-  | .part d a k0 i, k :: ks => .part { d with inCache := d.inCache || st.contains (k, ok) } a k0 (i.load st ok ks)
-  | .part d a k0 i, [] => .part d a k0 (i.load st ok [])
+  | .part d a k0 inner, i :: is =>
+      .part { d with inCache := d.inCache || st.contains (cacheKey i, ok) } a k0 (inner.load st ok is)
+  | .part d a k0 inner, [] => .part d a k0 (inner.load st ok [])
 
 /-- write the in-cache facts of every level back into the cache state -/
-def Callable.store (ok : Nat) : Callable α → List Nat → CacheState → CacheState
-  | .base d _ _, k :: _, st => if d.inCache && !st.contains (k, ok) then (k, ok) :: st else st
+def Callable.store (ok : Nat) : Callable α → List Ident → CacheState → CacheState
+  | .base d _ _, i :: _, st => if d.inCache && !st.contains (cacheKey i, ok) then (cacheKey i, ok) :: st else st
   | .base _ _ _, [], st => st
-  | .part d _ _ i, k :: ks, st =>
-      i.store ok ks (if d.inCache && !st.contains (k, ok) then (k, ok) :: st else st)
-  | .part _ _ _ i, [], st => i.store ok [] st
+  | .part d _ _ inner, i :: is, st =>
+      inner.store ok is (if d.inCache && !st.contains (cacheKey i, ok) then (cacheKey i, ok) :: st else st)
+  | .part _ _ _ inner, [], st => inner.store ok [] st
 
 /-- One call of a history: which callable, in which context, with which options (and the key of that options value). -/
 structure HCall (α : Type) where
@@ -559,7 +586,7 @@ structure HCall (α : Type) where
   kw : Option (Kw α)
 
 /-- A history of wrapped calls over several callables sharing one negative cache: the effect of every call. -/
-def runHistory (cs : List (Callable α × List Nat)) (st : CacheState) : List (HCall α) → List (Effect α)
+def runHistory (cs : List (Callable α × List Ident)) (st : CacheState) : List (HCall α) → List (Effect α)
   | [] => []
   | h :: rest =>
     match cs[h.slot]? with
